@@ -34,6 +34,9 @@ func histSpec(id string, prof *Profile, rule string, nt func(res *Result) bool) 
 			if (id == "C14" || id == "C05") && seed%25 == 4 {
 				return longLived(seed, prof, id)
 			}
+			if (id == "C01" || id == "C16") && seed%10 == 7 {
+				return takeover(seed, prof, id)
+			}
 			if id == "C13" && seed%10 < 3 {
 				return subChurn(seed, prof)
 			}
